@@ -21,6 +21,7 @@ type Engine struct {
 	currentKey rune            // The identifier of the macro being recorded.
 	macros     map[rune]string // All previously recorded macros.
 	started    bool
+	refused    bool // The last command tried to run a macro while recording one.
 
 	keys   *core.Keys // The engine feeds macros directly in the key stack.
 	hint   *ui.Hint   // The engine notifies when macro recording starts/stops.
@@ -46,6 +47,12 @@ func RecordKeys(eng *Engine) {
 
 	keys := core.MacroKeys(eng.keys)
 	if len(keys) == 0 {
+		return
+	}
+
+	// The keys of a command that was refused are not recorded.
+	if eng.refused {
+		eng.refused = false
 		return
 	}
 
@@ -110,6 +117,10 @@ func (e *Engine) Recording() bool {
 // Note that this function only feeds the keys of the macro back into the key
 // stack: it does not dispatch them to commands, therefore not running any.
 func (e *Engine) RunLastMacro() {
+	if e.refuseWhileRecording() {
+		return
+	}
+
 	if len(e.macros) == 0 {
 		return
 	}
@@ -129,6 +140,10 @@ func (e *Engine) RunLastMacro() {
 // Note that this function only feeds the keys of the macro back into the key
 // stack: it does not dispatch them to commands, therefore not running any.
 func (e *Engine) RunMacro(key rune) {
+	if e.refuseWhileRecording() {
+		return
+	}
+
 	if !isValidMacroID(key) && key != 0 {
 		return
 	}
@@ -140,6 +155,20 @@ func (e *Engine) RunMacro(key rune) {
 
 	macro = inputrc.Unescape(macro)
 	e.keys.Feed(false, []rune(macro)...)
+}
+
+// refuseWhileRecording returns true when a macro is being recorded: running a
+// macro then would record a call to a macro in the new one, possibly to itself,
+// and replaying such a macro never ends. As in GNU Readline, the command
+// is refused and its keys are left out of the macro being recorded.
+func (e *Engine) refuseWhileRecording() bool {
+	if !e.recording {
+		return false
+	}
+
+	e.refused = true
+
+	return true
 }
 
 // PrintLastMacro dumps the last recorded macro sequence to the screen.
